@@ -52,6 +52,15 @@ def pyStrip (s : String) : String :=
 def lowerAscii (s : String) : String :=
   String.ofList (s.toList.map (fun c => if c.toNat ≥ 65 && c.toNat ≤ 90 then Char.ofNat (c.toNat + 32) else c))
 
-def hasSub (s sub : String) : Bool := (s.splitOn sub).length > 1
+/-- `needle` is a prefix of the list -/
+def prefixL : List Char → List Char → Bool
+  | [], _ => true
+  | _ :: _, [] => false
+  | n :: ns, c :: cs => n == c && prefixL ns cs
+def hasSubL (needle : List Char) : List Char → Bool
+  | [] => needle.isEmpty
+  | c :: cs => prefixL needle (c :: cs) || hasSubL needle cs
+/-- `sub in s` (structural on the characters, so that the kernel can evaluate it on literals) -/
+def hasSub (s sub : String) : Bool := hasSubL sub.toList s.toList
 
 end DP
